@@ -1416,6 +1416,10 @@ func (gs *GossipSubRouter) rpcs(msg *Message) iter.Seq2[peer.ID, *RPC] {
 			if pid == from || pid == peer.ID(msg.GetFrom()) {
 				continue
 			}
+			// a mesh or fanout member may have unsubscribed since it was selected
+			if _, inTopic := tmap[pid]; !inTopic {
+				continue
+			}
 			if gs.iSupportSendingPartial(topic) && gs.peerRequestsPartial(pid, topic) {
 				// The peer requested partial messages. We'll skip sending them full messages
 				continue
